@@ -64,6 +64,9 @@ func mgmtURL() string {
 
 func setMgmt(version, btype, storage string) {
 	mgmt.mu.Lock()
+	if version == "<empty>" {
+		version = ""
+	}
 	mgmt.version, mgmt.btype, mgmt.storage = version, btype, storage
 	mgmt.fault404 = mgmtFault
 	mgmt.mu.Unlock()
